@@ -81,11 +81,55 @@ def handleMarshal (o : Op) : String :=
       s!"ok nkeys=1 pub={toHex k.pub.marshal} checkeq=1 blk={toHex (blk.drop 8)} kg={if o.nat? "kgrun" = some 1 then "1" else "-"}"
   | _, _ => "bad-op"
 
+def showPem (signer : Bool) : PemRes → String
+  | .err => "err"
+  | .needPass => "needpass pub=nil"
+  | .badPass => "badpass"
+  | .ok k p => if signer then s!"ok kind={txt k} pub={toHex p} sv=1" else s!"ok kind={txt k} pub={toHex p}"
+
+/-- `pem api=raw|signer mode=plain|pass noblock= ptype= proctype= isenc= decrypt= der=<ok:kind:pub|structural|err>
+     dsarest= dsaparams=<p:q:g|->` -/
+def handlePem (o : Op) : String :=
+  match o.nat? "noblock", o.hex? "ptype", o.hex? "proctype", o.nat? "isenc", o.nat? "decrypt", o.nat? "dsarest" with
+  | some nb, some pt, some proc, some ie, some dec, some dr =>
+    let der : Option DerRes :=
+      match (o.str "der").splitOn ":" with
+      | ["ok", k, p] => do
+        let kb ← ofHex k
+        let pb ← ofHex p
+        pure (.ok kb pb)
+      | ["structural"] => some .structural
+      | ["err"] => some .err
+      | _ => none
+    let dsaOk : Option Bool :=
+      match o.get? "dsaparams" with
+      | some "-" => some true
+      | some s => (match s.splitOn ":" with
+        | [p, q, g] => do
+          let p ← ofHex p; let q ← ofHex q; let g ← ofHex g
+          pure (checkDSAParams (mpintVal p) (mpintVal q) (mpintVal g))
+        | _ => none)
+      | none => some true
+    match der, dsaOk with
+    | some der, some dsaOk =>
+      let i : PemIn := ⟨nb = 1, pt, proc, ie = 1, dec, der, dr = 1⟩
+      let raw := match o.str "mode" with
+        | "plain" => some (pemRawPlain i)
+        | "pass" => some (pemRawPass i)
+        | _ => none
+      match raw, o.str "api" with
+      | some r, "raw" => showPem false r
+      | some r, "signer" => showPem true (signerOf r dsaOk)
+      | _, _ => "bad-op"
+    | _, _ => "bad-op"
+  | _, _, _, _, _, _ => "bad-op"
+
 def handle (line : String) : String :=
   let o := parseOp line
   match o.cmd with
   | "parse" => handleParse o
   | "marshal" => handleMarshal o
+  | "pem" => handlePem o
   | _ => "bad-op"
 
 end XC.C39
